@@ -161,21 +161,30 @@ def query_event(ev, s, o, h, op, shape, arg, g, method, dtype_variant):
     return e
 
 
-def replay_behaviour(beh, cid, ids, seed):
-    g = [gamma.ident(), gamma.affine(2.0, 1.0), gamma.ident_f32() if False else gamma.affine(0.5, -3.0)][(cid + seed) % 3]
+def steps_of(beh):
+    """[(kind, h, op, shape, arg)] read from the `last` variable of every state"""
+    out = []
+    for stp in beh[1:]:
+        last = stp["state"]["last"]
+        if last["op"] == "swap":
+            out.append(["SwapCall", last["h"], "", [], []])
+        else:
+            out.append(["Query", last["h"], last["op"], list(last["shape"]),
+                        [list(a) if isinstance(a, tuple) else a for a in last["arg"]]])
+    return out
+
+
+def replay_behaviour(o0, steps_in, cid, ids, seed):
+    g = [gamma.ident(), gamma.affine(2.0, 1.0), gamma.affine(0.5, -3.0)][(cid + seed) % 3]
     evs = []
     ev = sd.make_ev(evs, ids, cid, g)
-    o0 = beh[0]["state"]["store"][0]
     objs = [dict(o0)]
     real = [sd.new_event(ev, objs[0], g, h=1)]
     if real[0] is None:
         return evs, []
     steps, again = [], []
-    for k, stp in enumerate(beh[1:]):
-        # the action label of a quantified disjunct carries no parameters: read the call from `last`
-        last = stp["state"]["last"]
-        act = "SwapCall" if last["op"] == "swap" else "Query"
-        args = (last["h"],) if act == "SwapCall" else (last["h"], last["op"], last["shape"], last["arg"])
+    for k, (act, h_, op_, shape_, arg_) in enumerate(steps_in):
+        args = (h_,) if act == "SwapCall" else (h_, op_, shape_, arg_)
         if act == "SwapCall":
             h = args[0]
             e = ev("Swap", h=h, post=dict(sd.EMPTY_POST), src_post=dict(sd.EMPTY_POST))
@@ -219,9 +228,11 @@ def run(ctx: core.Ctx):
     ids = iter(range(1, 10**9))
     events, cases = [], []
     for beh in simparse.load(str(simdir / "b")):
-        evs, steps = replay_behaviour(beh, len(cases), ids, ctx.seed)
+        o0, st = dict(beh[0]["state"]["store"][0]), steps_of(beh)
+        o0 = {k: (list(v) if isinstance(v, tuple) else v) for k, v in o0.items()}
+        evs, steps = replay_behaviour(o0, st, len(cases), ids, ctx.seed)
         events += evs
-        cases.append({"object": beh[0]["state"]["store"][0], "steps": steps})
+        cases.append({"object": o0, "steps": st, "cid": len(cases)})
         ctx.nontrivial.add(json.dumps(steps))
     ctx.sample([e for e in events if e["cid"] == 0][:3])
     ctx.judge("Trace_C10", events, cases=cases, batch=1500)
@@ -240,5 +251,9 @@ def run(ctx: core.Ctx):
 
 
 def replay(ctx: core.Ctx, body):
-    print("C10 replays a whole simulated history: re-run ./vcheck C10 with the same VERIF_SEED", flush=True)
-    return 0
+    core.import_repo()
+    c = body["case"]
+    ids = iter(range(1, 10**9))
+    evs, _ = replay_behaviour(c["object"], c["steps"], c.get("cid", 0), ids, body.get("seed", ctx.seed))
+    ctx.judge("Trace_C10", evs, cases=[c])
+    return ctx.finish()
